@@ -501,7 +501,7 @@ func (g *gen) tryCatch() {
 	g.add("try:no-error", "int", "clean", "", "x := 1\ntry {\nx = x + 1\n} catch {\nx = 100\n}\n"+show("x"))
 	g.add("try:index", "int", "array-index", "", "a := []int{1, 2}\ntry {\n"+out("%v", "a[5]")+"} catch (e) {\n"+out("caught %v", "e")+"}\n")
 	g.add("try:in-callee", "int", "callee", "func bad@@(d int) int {\nreturn 10 / d\n}\n", "try {\n"+out("%v", "bad@@(2)")+out("%v", "bad@@(0)")+out("unreached")+"} catch (e) {\n"+out("caught %v", "e")+"}\n")
-	g.add("try:nested", "int", "nested", "", "z := 0\ntry {\ntry {\nx := 1 / z\n"+show("x")+"} catch (e) {\n"+out("inner %v", "e")+"y := 2 / z\n"+show("y")+"}\n} catch (e2) {\n"+out("outer %v", "e2")+"}\n")
+	g.add("try:nested", "int", "nested", "", "z := 0\ntry {\ntry {\nx := 1 / z\n"+show("x")+"} catch (e) {\n"+out("caught %v", "e")+out("in inner catch")+"y := 2 / z\n"+show("y")+"}\n} catch (e2) {\n"+out("caught %v", "e2")+out("in outer catch")+"}\n")
 	g.add("try:in-loop", "int", "continue", "", "n := 0\nfor i := 0; i < 4; i++ {\ntry {\nn = n + 10/(i-2)\n} catch {\nn = n + 1000\ncontinue\n}\nn = n + 1\n}\n"+show("n"))
 	g.add("try:break-out", "int", "break", "", "n := 0\nfor i := 0; i < 4; i++ {\ntry {\nif i == 2 {\nbreak\n}\nn++\n} catch {\nn = -1\n}\n}\n"+show("n"))
 	g.add("try:return-inside", "int", "return", "func f@@(z int) int {\ntry {\nreturn 10 / z\n} catch {\nreturn -1\n}\nreturn -2\n}\n", out("%v %v", "f@@(2)", "f@@(0)"))
